@@ -1252,6 +1252,16 @@ class Parser:
                     raise DuplicateNameError(
                         f"Name conflict with a generated name: {section} -> {o.name} is also the name generated for {g.name}\n1: {g.src}\n2: {o.src}\n"
                     )
+        # a host id is written under its own name into the python module, where constants,
+        # string constants, aliases and structs live under theirs: the later one would replace
+        # the earlier one (the host id LOCAL_HOST next to a constant LOCAL_HOST)
+        for section in ("constants", "string_constants", "aliases", "struct_defs"):
+            for o in getattr(self, section).values():
+                h = self.host_ids.get(o.name)
+                if h is not None:
+                    raise DuplicateNameError(
+                        f"Duplicate name conflict found: \n\n1: host_ids -> {h.name} -> {h.src.absolute()}\n2: {section} -> {o.name} -> {o.src.absolute()}\n"
+                    )
 
     def in_core_defs_file(self) -> bool:
         """True while the package's own core_defs.yaml is being read (not for a user file of that name)"""
